@@ -1,9 +1,9 @@
 #!/bin/sh
 # Re-run every kept seeded change against its property's check (quick tier); one line each.
 cd "$(dirname "$0")/.." || exit 2
-for d in seeded/C*; do
+for d in seeded/${2:-C}*; do
   n=$(basename $d); p=$(echo $n | cut -c1-3)
   out=$(python3 tools/mutant.py run $d $p quick ${1:-0})
-  rc=$(echo "$out" | python3 -c "import sys,json; d=json.loads(sys.stdin.read()); print(d.get('rc'), d.get('applies'))")
+  rc=$(printf '%s' "$out" | python3 -c "import sys,json; d=json.loads(sys.stdin.read()); print(d.get('rc'), d.get('applies'))")
   echo "$n $rc"
 done
